@@ -1712,6 +1712,10 @@ def gen_conn_spec(rng, storage=None):
     if storage != 'mapping' and storage != 'mvccmapping':
         rounds.append(dict(kind='meta', savepoint=rng.random() < 0.5, size=rng.choice([1, 300])))
     rounds.append(dict(kind='savepoint-fail', size=rng.choice([1, 300])))
+    # a transaction that only declares readCurrent and is aborted (it never joined), or that also wrote
+    # and failed: the declaration must not outlive it
+    rounds.append(dict(kind='readcurrent', how='readonly', size=1))
+    rounds.append(dict(kind='readcurrent', how='joined', when='vote', size=1))
     rounds.append(dict(kind='import', savepoint=rng.random() < 0.5, cut=rng.choice([0.3, 0.6, 0.95]), size=1))
     rounds.append(dict(kind='multidb', how=rng.choice(['conflict', 'foreign']), when=rng.choice(['vote', 'commit']),
                        size=rng.choice([1, 300])))
@@ -1874,6 +1878,7 @@ def conn_case(ck, root, spec):
             r1[k] = PersistentMapping({'v': 0})
         if has_blobs:
             r1['blob'] = Blob(b'blob-0')
+        r1['rc'] = PersistentMapping({'v': 0})          # only ever read (readCurrent) by connection 1
         c1.get_connection('other').root()['o'] = PersistentMapping({'v': 0})
         tm1.commit()
         tm2 = transaction.TransactionManager()
@@ -1902,6 +1907,11 @@ def conn_case(ck, root, spec):
         def view(conn):
             v = {k: dict(conn.root()[k].data) for k in keys}
             v['o'] = dict(conn.get_connection('other').root()['o'].data)
+            v['rc'] = dict(conn.root()['rc'].data)
+            for k in sorted(conn.root().keys()):
+                if k.startswith('relinked'):
+                    o = conn.root()[k]
+                    v[k] = (type(o).__name__, len(o))    # loading it fails if its record is missing
             if has_blobs:
                 with conn.root()['blob'].open('r') as f:
                     v['blob'] = f.read()
@@ -1926,6 +1936,8 @@ def conn_case(ck, root, spec):
                                                if rd['how'] == 'foreign' else '')
             if rd['kind'] == 'multidb':
                 label = 'multidb-' + rd['how']
+            if rd['kind'] == 'readcurrent':
+                label = 'readcurrent-' + rd['how']
             ck.count('conn:' + label)
             ck.count('conn-storage:' + skind + (':explicit' if explicit else ''))
             try:
@@ -1933,6 +1945,20 @@ def conn_case(ck, root, spec):
                 tmc = tm1                    # the transaction manager whose commit fails
                 pre_raised = None
                 objs = [r1[k] for k in keys] if rd['kind'] != 'undo' else []
+                newobjs = []
+                if rd['kind'] == 'readcurrent':
+                    c1.readCurrent(r1['rc'])
+                    objs = objs[:1] if rd['how'] == 'joined' else []
+                if objs and rd['kind'] in ('foreign', 'conflict', 'meta', 'multidb', 'readcurrent'):
+                    # new objects of the failing transaction, some of them EMPTY (falsy) containers: a failed
+                    # commit must disown every one of them (no oid, no jar) although their records were
+                    # already handed to the storage or the savepoint store
+                    from persistent.list import PersistentList
+                    from BTrees.OOBTree import OOBTree
+                    newobjs = [PersistentMapping(), PersistentMapping({'x': n}), PersistentList(), OOBTree()]
+                    newinfo = [(type(o).__name__, len(o)) for o in newobjs]
+                    for j, o in enumerate(newobjs):
+                        r1['new-%d-%d' % (n, j)] = o
                 if rd['kind'] == 'undo':
                     # no connection takes part (it would compete with the undo manager for the same
                     # commit lock): the undo manager, alone or with a failing second participant
@@ -1962,7 +1988,7 @@ def conn_case(ck, root, spec):
                     tm2.begin()
                     c2.root()[keys[rd['on'] % len(keys)]]['v'] = 'other-%d' % n
                     tm2.commit()
-                elif rd['kind'] == 'foreign':
+                elif rd['kind'] == 'foreign' or (rd['kind'] == 'readcurrent' and rd['how'] == 'joined'):
                     tm1.get().join(FailingRM(rd['when'], rd.get('first', False)))
                 elif rd['kind'] == 'meta':
                     tm1.get().note('d' * 70000)
@@ -1994,7 +2020,7 @@ def conn_case(ck, root, spec):
                     except Exception as e:
                         pre_raised = e
                 try:
-                    if rd.get('how') == 'early':
+                    if rd.get('how') in ('early', 'readonly'):
                         raise ForeignFailure('aborted before the commit began')
                     if pre_raised is not None:
                         raise pre_raised
@@ -2008,7 +2034,7 @@ def conn_case(ck, root, spec):
                 ck.count('conn:data-trace:' + ('write+trunc' if 't' in kinds else (kinds and 'write' or 'none')))
                 ck.case(['conn', skind, explicit, rd, kinds], True)
                 if raised is None:
-                    if rd['kind'] in ('import', 'savepoint-fail') or rd.get('how') == 'multiple':
+                    if rd['kind'] in ('import', 'savepoint-fail') or rd.get('how') in ('multiple', 'impossible'):
                         ck.count('conn:%s-did-not-fail' % label)      # (an export cut at a record boundary)
                         continue
                     if stop('C05:conn:%s-not-raised' % label, 'transaction.commit() did not raise', case):
@@ -2039,6 +2065,31 @@ def conn_case(ck, root, spec):
                         return
                     restart(tm1)
                     continue
+                kept = [type(o).__name__ + ('(empty)' if not len(o) else '') for o in newobjs
+                        if o._p_oid is not None or o._p_jar is not None]
+                if kept:
+                    if stop('C05:trace-left:conn-new-object:%s' % label,
+                            'transaction.commit() failed (%s: %s) and was aborted, the storage rolled the records '
+                            'back, but new objects of that transaction still carry an oid / a connection: %s' % (
+                                label, type(raised).__name__, ', '.join(kept)), case):
+                        return
+                    restart(tm1)
+                    continue
+                lost = [type(o).__name__ for o in newobjs if o._p_oid is None and o._p_changed is None]
+                if lost:
+                    # (disowned AND turned into a ghost: its state existed only in this transaction)
+                    newobjs = []
+                    if stop('C05:trace-left:conn-new-object-state-lost:%s' % label,
+                            'transaction.commit() failed (%s: %s) and was aborted; new objects of that '
+                            'transaction were disowned but also invalidated: their in-memory state is gone '
+                            '(ghosts without a connection): %s — linking the same instance again cannot be '
+                            'committed' % (label, type(raised).__name__, ', '.join(lost)), case):
+                        return
+                if rd['kind'] == 'readcurrent':
+                    # meanwhile another connection changes the object that was only declared readCurrent
+                    tm2.begin()
+                    c2.root()['rc']['v'] = 'changed-%d' % n
+                    tm2.commit()
                 # the committing connection shows what a brand-new connection reads
                 restart(tm1)
                 v1, v3 = view(c1), fresh_view()
@@ -2059,6 +2110,8 @@ def conn_case(ck, root, spec):
                         for k in keys:
                             r1[k]['w'] = n
                         c1.get_connection('other').root()['o']['w'] = n
+                        for j, o in enumerate(newobjs):
+                            r1['relinked-%d' % j] = o          # the retry links the very same instances
                         tm1.commit()
                         done.append(1)
                     except Exception as e:
@@ -2077,7 +2130,9 @@ def conn_case(ck, root, spec):
                         return
                     restart(tm1)
                     continue
-                exp = {k: (dict(v3[k], w=n) if isinstance(v3[k], dict) else v3[k]) for k in v3}
+                exp = {k: (dict(v3[k], w=n) if k in keys or k == 'o' else v3[k]) for k in v3}
+                for j, o in enumerate(newobjs):
+                    exp['relinked-%d' % j] = newinfo[j]
                 got = fresh_view()
                 if got != exp:
                     bad = [k for k in exp if got[k] != exp[k]]
